@@ -33,6 +33,39 @@ static void backtrace_text(char* out, size_t n, int skip) {
   if (n) out[o < n ? o : n - 1] = 0;
 }
 
+// first frames that belong to the library (demangled, shortened): the "site" of a violation
+void library_site(char* out, size_t n) {
+  void* pcs[48];
+  int c = backtrace(pcs, 48);
+  size_t o = 0;
+  int shown = 0;
+  if (n) out[0] = 0;
+  for (int i = 1; i < c && shown < 3 && o + 130 < n; ++i) {
+    Dl_info di;
+    if (!dladdr(pcs[i], &di) || !di.dli_sname) continue;
+    int st = 0;
+    char* dm = abi::__cxa_demangle(di.dli_sname, nullptr, nullptr, &st);
+    const char* s = (st == 0 && dm) ? dm : di.dli_sname;
+    if (strstr(s, "unifex::") && !strstr(s, "rt::")) {
+      // strip the argument list and template arguments for a stable, short name
+      char buf[120];
+      size_t k = 0;
+      int depth = 0;
+      for (const char* q = s; *q && k + 1 < sizeof buf; ++q) {
+        if (*q == '<') { ++depth; continue; }
+        if (*q == '>') { if (depth) --depth; continue; }
+        if (depth) continue;
+        if (*q == '(' ) break;
+        buf[k++] = *q;
+      }
+      buf[k] = 0;
+      o += snprintf(out + o, n - o, "%s%s", shown ? " <- " : "", buf);
+      ++shown;
+    }
+    free(dm);
+  }
+}
+
 static void on_signal(int sig, siginfo_t* si, void*) {
   static volatile int once = 0;
   if (__atomic_exchange_n(&once, 1, __ATOMIC_SEQ_CST)) _exit(99);
